@@ -21,7 +21,7 @@ RULE = ('trees: leaves x { !, &&, || with 2 or 3 operands } to depth 2 (binary a
         'after !, after ( and before ) ); simple-expression contexts (every/any line, num-lines, -transformed-by, contents, line-num, -selection, '
         '-with-pruned, every/any file, num-files, dir-contents, replace -at, filter) followed by an outer infix operator; malformed family = every '
         'single-token deletion, duplication and adjacent transposition of the renderings of the depth-1 trees, plus dangling / doubled operators of every mix of && and || '
-        '(bare, parenthesised, unbalanced), each also laid out with a line break before every infix operator; half operators (`&`, `|`); superfluous text after a complete expression in the hosting assertion; a line that starts with an infix operator after a complete expression outside parentheses (6 expressions x {&&, ||} x {definition, assertion}); '
+        '(bare, parenthesised, unbalanced), each also laid out with a line break before every infix operator; half operators (`&`, `|`); quoted operators and parentheses (hard and soft quotes); superfluous text after a complete expression in the hosting assertion; a line that starts with an infix operator after a complete expression outside parentheses (6 expressions x {&&, ||} x {definition, assertion}); '
         'non-trivial = tree with at least one operator (value depends on structure) ; renderings of one tree are counted once')
 ASSUMPTIONS = [
     'a line break *before* an infix operator is must-accept only inside parentheses and for a chain of one operator kind (as the project\'s own parser tests '
@@ -615,6 +615,10 @@ def _malformed(res, case):
                     muts.append(toks[:i] + [toks[i + 1], toks[i]] + toks[i + 2:])
                 if toks[i] in ('&&', '||'):
                     muts.append(toks[:i] + [toks[i][0]] + toks[i + 1:])  # half an operator: `&`, `|`
+                if toks[i] in ('&&', '||', '!', '(', ')'):
+                    # a QUOTED operator / parenthesis is a string, not an operator: the expression is malformed
+                    muts.append(toks[:i] + ["'%s'" % toks[i]] + toks[i + 1:])
+                    muts.append(toks[:i] + ['"%s"' % toks[i]] + toks[i + 1:])
             for m in muts:
                 key = ' '.join(m)
                 if key in seen or not m:
